@@ -95,6 +95,8 @@ type Job struct {
 }
 
 type FoundViolation struct {
+	JobStart  int    `json:"job_start"`
+	JobStride int    `json:"job_stride"`
 	Index   int    `json:"index"`
 	RunSeed uint64 `json:"runseed"`
 	Class   string `json:"class"`
@@ -134,6 +136,16 @@ type Replay struct {
 	Note     string          `json:"note,omitempty"`
 	Index    int             `json:"index"`
 	Case     json.RawMessage `json:"case"`
+	// History, when set: the violation shows only after the runs that one worker process executed before it (state
+	// that goalign keeps for the whole process). The replay is that sequence of runs, in one fresh process.
+	History *History `json:"history,omitempty"`
+}
+
+type History struct {
+	Seed   uint64 `json:"seed"`
+	Start  int    `json:"start"`
+	Stride int    `json:"stride"`
+	Count  int    `json:"count"`
 }
 
 var (
@@ -990,6 +1002,41 @@ func readReplay(path string) Replay {
 	return rp
 }
 
+// runHistory executes runs start, start+stride, ... (count of them) in one fresh worker process and says whether
+// the run at the given index ends in a violation (of any class, returned).
+func (s *supervisor) runHistory(h *History, tier string, race bool, index int) (bool, string, string) {
+	job := Job{Property: s.id, Mode: "batch", Tier: tier, Seed: h.Seed, Start: h.Start, Stride: h.Stride, Count: h.Count, Race: race, MaxPerClass: 1 << 30}
+	wr := s.spawn(job, 30*time.Minute)
+	for _, v := range wr.res.Violations {
+		if v.Index == index {
+			return true, v.Class, v.Detail
+		}
+	}
+	return false, "", ""
+}
+
+// replayHistory: does the candidate reproduce after the runs its worker process executed before it? If so the
+// history is cut down from the front (2, 4, 8 ... last runs) as far as it still reproduces.
+func (s *supervisor) replayHistory(cand FoundViolation, rp Replay) (*History, string) {
+	if cand.JobStride <= 0 || cand.Index <= cand.JobStart {
+		return nil, ""
+	}
+	full := &History{Seed: s.seed, Start: cand.JobStart, Stride: cand.JobStride, Count: (cand.Index-cand.JobStart)/cand.JobStride + 1}
+	ok, _, detail := s.runHistory(full, rp.Tier, rp.Race, cand.Index)
+	if !ok {
+		return nil, ""
+	}
+	best := full
+	for k := 2; k < full.Count; k *= 2 {
+		h := &History{Seed: s.seed, Start: cand.Index - (k-1)*cand.JobStride, Stride: cand.JobStride, Count: k}
+		if ok2, _, d2 := s.runHistory(h, rp.Tier, rp.Race, cand.Index); ok2 {
+			best, detail = h, d2
+			break
+		}
+	}
+	return best, fmt.Sprintf("only after the %d run(s) the same process executed before it (alone in a fresh process the case passes):\n%s", best.Count-1, detail)
+}
+
 // replayOnce runs one replay file in a fresh worker process.
 // Returns (reproduced, class, detail, machineryProblem).
 func (s *supervisor) replayOnce(path string, rp Replay, lenient bool) (bool, string, string, string) {
@@ -1176,6 +1223,21 @@ func (s *supervisor) conclude(total BatchResult, t0 time.Time, writeEvidence boo
 					continue
 				}
 				if !rep {
+					// not alone in a fresh process. After the runs its worker executed before it? Then goalign carries
+					// state from one call to the next, and the history is the replay.
+					if h, d := s.replayHistory(cand, rp); h != nil {
+						hcl := "depends-on-earlier-calls:" + cl
+						rp.History, rp.Class, rp.Detail, rp.Note = h, hcl, d, "reproduces only after the earlier runs of the same worker process: replayed as that sequence of runs"
+						jb, _ := json.MarshalIndent(rp, "", " ")
+						dst := filepath.Join(outDir, slug(hcl)+".json")
+						os.MkdirAll(outDir, 0755)
+						mu.Lock()
+						os.WriteFile(dst, jb, 0644)
+						conf = append(conf, confirmed{class: hcl, detail: d, path: dst, known: matchKnown(known, s.id, hcl), count: total.ClassCount[cl]})
+						mu.Unlock()
+						ok = true
+						continue
+					}
 					problem = fmt.Sprintf("candidate %s (run %d) did not reproduce on replay", cl, cand.Index)
 					continue
 				}
@@ -1330,6 +1392,16 @@ func (s *supervisor) writeEvidence(total BatchResult, nviol int, knownHit []stri
 
 func doReplay(b *builder, id, path string, rp Replay) int {
 	s := &supervisor{b: b, id: id, cfg: b.cfg, tier: rp.Tier, nw: 1}
+	if rp.History != nil {
+		s.seed = rp.History.Seed
+		idx := rp.History.Start + (rp.History.Count-1)*rp.History.Stride
+		if ok, class, detail := s.runHistory(rp.History, rp.Tier, rp.Race, idx); ok {
+			fmt.Printf("VIOLATION property=%s replay=%s\n  class=depends-on-earlier-calls:%s\n%s\n", id, path, class, detail)
+			return 1
+		}
+		fmt.Printf("OK property=%s replay=%s did not fail\n", id, path)
+		return 0
+	}
 	rep, class, detail, prob := s.replayOnce(path, rp, rp.Shrunk)
 	if prob != "" {
 		die2("%s", prob)
